@@ -468,7 +468,7 @@ theorem v1_fold_state {T} (L : Ledger) (pid : Id) (mw : Nat) (l : List Txn1) (ms
     hF1, by rw [hpf1, hJ.base]⟩
 
 theorem v2_fold_noPanic {T} (L : Ledger) (hV : 2 * V L < curLimit) (hS : SFtot L ≤ 10000)
-    (hmd : 1 ≤ L.P.maturityDelay) (mw : Nat)
+    (hmd : 1 ≤ L.P.maturityDelay) (hm2L : ∀ e ∈ L.fc2, e.fc.missedHost ≤ e.fc.host.value) (mw : Nat)
     (l : List Txn2) : ∀ (ms : Mid) (R : List (Kind × Id)), Ctx T ms.base →
     ms.base.child ≥ ms.base.P.ephemeralFix → BJ T L ms →
     Fresh T ms (l.flatMap Txn2.created ++ R) →
@@ -482,6 +482,7 @@ theorem v2_fold_noPanic {T} (L : Ledger) (hV : 2 * V L < curLimit) (hS : SFtot L
     have hb := hJ.base
     have hpm := hJ.pool_mature_le
     have hf2 := fc2Sum_le_V L
+    have hm2 : ∀ e ∈ ms.base.fc2, e.fc.missedHost ≤ e.fc.host.value := by rw [hb]; exact hm2L
     have hG := genuineBound2_of_inv hc hJ.inv (by rw [hb]; omega)
     simp only [List.flatMap_cons, List.append_assoc] at hF
     have hsfb : sfTot ms < u64Limit := lt_u64 (by rw [hJ.sf]; exact hS)
@@ -492,11 +493,11 @@ theorem v2_fold_noPanic {T} (L : Ledger) (hV : 2 * V L < curLimit) (hS : SFtot L
         have := (validateV2Transaction_ok_iff ms t mw).1 hv
         exact this.2.1.1
       obtain ⟨hfcv, hrnv⟩ := v2_created_bounds hov
-      obtain ⟨ms1, ha⟩ := v2txn_total hc hfix hJ.inv hF hJ.cs (by rw [hJ.sf]; exact hS)
+      obtain ⟨ms1, ha⟩ := v2txn_total hc hfix hJ.inv hm2 hF hJ.cs (by rw [hJ.sf]; exact hS)
         (by rw [hb]; unfold Cur at *; omega) hfcv hrnv hv
       rw [ha]; intro m hm; cases hm
     · obtain ⟨_, hv, ha⟩ := bind_ok_iff.1 h1
-      obtain ⟨hI1, hF1, hb1, hP1, hS1, hpl1, hsv1, hpf1, hwi1⟩ := v2txn_conserves hc hfix hJ.inv hF
+      obtain ⟨hI1, hF1, hb1, hP1, hS1, hpl1, hsv1, hpf1, hwi1⟩ := v2txn_conserves hc hfix hJ.inv hm2 hF
         (hnw t List.mem_cons_self) hsfb hv ha
       have hJ1 := bj_step hJ hI1 hb1 (t.fee + t.forfeits) _ (by rw [← Nat.add_assoc]; exact hP1) hS1 hpl1 hsv1
         (by have := hwi1 (by rw [hb]; exact hmd); rw [hb] at this; exact this)
@@ -543,7 +544,7 @@ theorem c10_validate_no_panic {L : Ledger} (hw : WF L) (hs : Solvent L) (hfix : 
     hc hJ0 hsupp hF0 hcov.1 hnw.1) (fun s hs1 => ?_)
   obtain ⟨hJ1, hF1, hp1⟩ := v1_fold_state L pid b.maxWeight b.txns1 (newMid L) s _ hc hJ0 hsupp hF0 hcov.1 hnw.1 hS hmd hs1
   have hb1 := hJ1.base
-  exact v2_fold_noPanic L hV hS hmd b.maxWeight b.v2txns s _ (by rw [hb1]; exact hc) (by rw [hb1]; exact hfix) hJ1 hF1 hnw.2
+  exact v2_fold_noPanic L hV hS hmd hw.fc2_missed b.maxWeight b.v2txns s _ (by rw [hb1]; exact hc) (by rw [hb1]; exact hfix) hJ1 hF1 hnw.2
 
 /-- A block accepted by validation is applied without panic; the Foundation subsidy is computable whenever
 the parameters are sane (`ParamsOk`, part of `WF`). -/
